@@ -85,6 +85,12 @@ def check(ctx):
         ctx.guarded("extensions", "Ok requires the libp2p extension", s, lambda c, r, l: l == "Continue" and "ok_or(libp2p_extension, webpki::Error::BadDer{})" in r, "libp2p_extension.ok_or(BadDer)?")
         r = render(u.site_expr(s))
         ctx.ob("extensions", "certificate carries the parsed extension", "extension: <std::result::Result as std::ops::Try>::branch(std::option::Option::ok_or(libp2p_extension" in r, s.loc(), r[:240])
+    # every extension is examined: Ok is reachable only after the extension iterator is exhausted (no early loop exit)
+    nx = [s for s in u.call_sites(r"Iterator>::next$")]
+    ctx.floor("extensions", "extension loop", nx, 1)
+    for s in oks(u):
+        ctx.guarded("extensions", "Ok only after all extensions were examined", s,
+                    lambda c, r, l: l == "None" and r.startswith("discr(") and "Iterator>::next(" in r, "extension iterator returned None")
     dup = [s for s in u.agg_sites(r"webpki::Error$|webpki::error::Error$", "BadDer") if s.stmt["p"]["l"] == 0 or True]
     st = [mir.Site(u, d[1], d[2]) for k, n in u.names.items() if n == "libp2p_extension" for d in u.defs.get(k, []) if d[0] == "stmt" and "Some{" in render(u.rvalue_expr(d[3]))]
     ctx.floor("extensions", "libp2p_extension = Some(..)", st, 1)
